@@ -30,6 +30,9 @@ struct EngineD {
         if (menu.empty()) { std::fprintf(stderr, "readsim: no configuration serves %s\n", opt.prop.c_str()); std::exit(2); }
         Rng pick = sim::stream(run_seed, "menu");
         const ea::CfgEntry *e = menu[pick.below(menu.size())];
+        // scale slots: half of them go to the one-level index with Epsilon 1 (the most segments per key)
+        if (opt.profile.empty() && ((run_index >> 4) % 256) == 2 && pick.coin())
+            for (auto c : menu) if (c->name == "rd-pgm:u64:e1:r0") e = c;
         ea::GenCtx g{run_seed, run_index, opt.prop, opt.tier, opt.profile, tsan};
         PlanText p = e->gen(*e, g, st);
         p.set("seed", run_seed);
